@@ -134,7 +134,16 @@ fn light_case(ctx: &mut Ctx, case: u64, rng: &mut Rng, scratch: &Scratch) {
                 iroh_docs::verif::set_clock(now);
                 let del = rng.chance(1, 4);
                 uniq += 1;
-                let (h, l) = unique_content(uniq);
+                let (mut h, mut l) = unique_content(uniq);
+                // now and then a local write with inconsistent content arguments (the empty-blob hash
+                // with a length, or a content hash with length 0). Whatever the replica answers is
+                // taken at its word: if the write is accepted it counts as accepted and must reach
+                // every replica like any other
+                match rng.below(24) {
+                    0 => h = iroh_blobs::Hash::EMPTY,
+                    1 => l = 0,
+                    _ => {}
+                }
                 let mut r = nodes[i].store.open_replica(&ns).unwrap();
                 let res = if del { block_on(r.delete_prefix(&k, &uni.authors[a])) } else { block_on(r.insert(&k, &uni.authors[a], h, l)) };
                 drop(r);
